@@ -24,16 +24,18 @@
 (***************************************************************************)
 EXTENDS Integers, Sequences, FiniteSets, TLC, Json
 
-CONSTANTS Wrapped      \* [stage -> [mode -> BOOLEAN]]
+CONSTANTS Wrapped,     \* [stage -> [mode -> BOOLEAN]]
+          ParseReports \* [mode -> {"Syntax", "Fatal"}]: what the parse stage's own wrapper turns EVERY parse failure into
+                       \* ("Fatal": some failure passes that wrapper and is only caught by the blanket one further out)
 
 Stages == <<"parse", "deps", "preprocess", "nodeapi", "handler">>
 Modes == {"disk", "memory"}
 Classes == {"App", "Foreign"}
 
-VARIABLES mode, at, raised, escaped, rendered, op
-vars == <<mode, at, raised, escaped, rendered, op>>
+VARIABLES mode, at, raised, escaped, rendered, op, reported
+vars == <<mode, at, raised, escaped, rendered, op, reported>>
 
-Init == /\ mode \in Modes /\ at = 1 /\ raised = "none" /\ escaped = "none" /\ rendered = "none"
+Init == /\ mode \in Modes /\ at = 1 /\ raised = "none" /\ escaped = "none" /\ rendered = "none" /\ reported = "none"
         /\ op = [name |-> "init"]
 
 Escape(stage, md, cls) == IF cls = "Foreign" /\ Wrapped[stage][md] THEN "App" ELSE cls
@@ -42,12 +44,15 @@ Escape(stage, md, cls) == IF cls = "Foreign" /\ Wrapped[stage][md] THEN "App" EL
 Pass == /\ escaped = "none" /\ at <= Len(Stages)
         /\ at' = at + 1
         /\ op' = [name |-> "pass", stage |-> Stages[at]]
-        /\ UNCHANGED <<mode, raised, escaped, rendered>>
+        /\ UNCHANGED <<mode, raised, escaped, rendered, reported>>
 
 \* an exception is raised inside the stage and travels to the caller of the pipeline
 Raise(cls) == /\ escaped = "none" /\ at <= Len(Stages)
               /\ raised' = cls
               /\ escaped' = Escape(Stages[at], mode, cls)
+              \* the application error class the user sees: a failure of the parse stage is a syntax error, other stages report their own classes
+              /\ reported' = IF Escape(Stages[at], mode, cls) # "App" THEN "Foreign"
+                             ELSE IF Stages[at] = "parse" THEN ParseReports[mode] ELSE "App"
               /\ op' = [name |-> "raise", stage |-> Stages[at], cls |-> cls, escaped |-> Escape(Stages[at], mode, cls)]
               /\ UNCHANGED <<mode, at, rendered>>
 
@@ -56,7 +61,7 @@ Raise(cls) == /\ escaped = "none" /\ at <= Len(Stages)
 Render == /\ escaped # "none" /\ rendered = "none"
           /\ rendered' = "text"
           /\ op' = [name |-> "render", escaped |-> escaped, loop_survives |-> escaped = "App"]
-          /\ UNCHANGED <<mode, at, raised, escaped>>
+          /\ UNCHANGED <<mode, at, raised, escaped, reported>>
 
 Next == Pass \/ (\E c \in Classes : Raise(c)) \/ Render
 Spec == Init /\ [][Next]_vars
@@ -68,5 +73,6 @@ RenderTotal == [][op'.name = "render" => rendered' = "text"]_vars
 LoopSurvives == [][op'.name = "render" => op'.loop_survives]_vars
 \* unparsable text is reported as a syntax error whether the module lives on disk or only in memory
 ParseErrorsAreApp == [][op'.name = "raise" /\ op'.stage = "parse" => op'.escaped = "App"]_vars
+ParseErrorsAreSyntax == [][op'.name = "raise" /\ op'.stage = "parse" => reported' = "Syntax"]_vars
 
 =============================================================================
